@@ -34,6 +34,16 @@ static void fill_cplx()
     C2("sub", x - y);
     C2("mul", x * y);
     C2("div", x / y);
+    // compound assignment, also with the same object on both sides (the operators must not read a member they have
+    // already overwritten)
+    regc<T>("add_assign", [](const xsv_args* a) { CB<T> x = ldc<T>(a->in[0]); CB<T> y = ldc<T>(a->in[1]); x += y; stc<T>(a->out[0], x); });
+    regc<T>("sub_assign", [](const xsv_args* a) { CB<T> x = ldc<T>(a->in[0]); CB<T> y = ldc<T>(a->in[1]); x -= y; stc<T>(a->out[0], x); });
+    regc<T>("mul_assign", [](const xsv_args* a) { CB<T> x = ldc<T>(a->in[0]); CB<T> y = ldc<T>(a->in[1]); x *= y; stc<T>(a->out[0], x); });
+    regc<T>("div_assign", [](const xsv_args* a) { CB<T> x = ldc<T>(a->in[0]); CB<T> y = ldc<T>(a->in[1]); x /= y; stc<T>(a->out[0], x); });
+    regc<T>("add_self", [](const xsv_args* a) { CB<T> x = ldc<T>(a->in[0]); CB<T>& r = x; x += r; stc<T>(a->out[0], x); });
+    regc<T>("sub_self", [](const xsv_args* a) { CB<T> x = ldc<T>(a->in[0]); CB<T>& r = x; x -= r; stc<T>(a->out[0], x); });
+    regc<T>("mul_self", [](const xsv_args* a) { CB<T> x = ldc<T>(a->in[0]); CB<T>& r = x; x *= r; stc<T>(a->out[0], x); });
+    regc<T>("div_self", [](const xsv_args* a) { CB<T> x = ldc<T>(a->in[0]); CB<T>& r = x; x /= r; stc<T>(a->out[0], x); });
     C2("fadd", xs::add(x, y));
     C2("fmul", xs::mul(x, y));
     C3("fma", xs::fma(x, y, z));
